@@ -92,6 +92,10 @@ class Sim:
         self.loop_errors = []
         self.drop_next = None
         self.hold = set()       # nodes whose outgoing datagrams are silently lost
+        self.transports = []    # every fake outside transport ever opened by an exit socket
+        self.ov2idx = {}
+        self.dns_table = {}
+        self._patch_exit_io()
         _random.seed(rng.getrandbits(64))
 
     # -- construction -----------------------------------------------------------------------------------------
@@ -118,6 +122,7 @@ class Sim:
         self.nodes.append(n)
         self.addr2idx[tuple(n.endpoint.wan_address)] = idx
         self.addr2idx[tuple(n.endpoint.lan_address)] = idx
+        self.ov2idx[id(n.overlay)] = idx
         self._hook(idx, n)
         return idx
 
@@ -212,10 +217,14 @@ class Sim:
         return p
 
     async def settle(self, extra: float = 0.0):
-        idle = 0
-        while idle < 6:
-            await asyncio.sleep(0)
-            idle = 0 if self.queue else idle + 1
+        for rnd in range(3):
+            idle = 0
+            while idle < 6:
+                await asyncio.sleep(0)
+                idle = 0 if self.queue else idle + 1
+            if rnd < 2:
+                # let the 5-10 virtual-ms timers of the exit sockets (transport creation, DNS) fire
+                await asyncio.sleep(0.012)
         if extra:
             await asyncio.sleep(extra)
             await self.settle()
@@ -229,45 +238,85 @@ class Sim:
         await self.settle(0.05)
 
     def wrap_exits(self):
-        from ipv8.messaging.anonymization.exit_socket import TunnelExitSocket
-        sim = self
+        """kept for the call sites: exit sockets are the REAL TunnelExitSocket objects; only the UDP transports, the DNS
+        lookup and (in open-policy scenarios) the exit policy are replaced, see `_patch_exit_io`"""
 
+    def _patch_exit_io(self):
+        """Real `TunnelExitSocket.enable / sendto / datagram_received / close` run unchanged.  Replaced underneath them:
+        `TunnelProtocol.open` (returns a transport on the mock internet after 5 virtual ms, so the send queue is
+        exercised), `TunnelExitSocket.resolve` (deterministic fake DNS after 10 virtual ms) and, when the scenario says
+        "open policy", `is_allowed`."""
+        from ipv8.messaging.anonymization import exit_socket as xmod
         from ipv8.messaging.interfaces.endpoint import EndpointListener
+        from ipv8.messaging.interfaces.udp.endpoint import UDPv4Address
+        sim = self
+        self._xmod = xmod
+        self._orig_exit_io = (xmod.TunnelProtocol.open, xmod.TunnelExitSocket.resolve, xmod.TunnelExitSocket.is_allowed)
+        orig_allowed = xmod.TunnelExitSocket.is_allowed
 
-        class HExit(TunnelExitSocket, EndpointListener):
-            """exit socket whose "outside world" is the mock internet; every packet handed to it is logged"""
+        class FakeTransport(EndpointListener):
+            def __init__(self, proto):
+                self.proto = proto
+                self.v6 = proto.local_addr[0] == "::"
+                self.xs = proto.received_cb.__self__
+                self.closed = False
+                self.endpoint = None
+                if not self.v6:
+                    ep = sim.mep.AutoMockEndpoint()
+                    ep.open()
+                    EndpointListener.__init__(self, ep, main_thread=False)
+                    ep.add_listener(self)
+                sim.transports.append(self)
 
-            def __init__(self, parent, idx):
-                self.endpoint = sim.mep.AutoMockEndpoint()
-                self.endpoint.open()
-                TunnelExitSocket.__init__(self, parent.circuit_id, parent.hop, parent.overlay)
-                EndpointListener.__init__(self, self.endpoint, main_thread=False)
-                self.endpoint.add_listener(self)
-                self.idx = idx
-                self.parent = parent
-
-            def enable(self):
-                self.enabled = True
+            def public_address(self):
+                return tuple(self.endpoint.wan_address)
 
             def sendto(self, data, destination):
-                if not sim.open_policy and not self.is_allowed(data):
+                if self.closed:
                     return
-                sim.exit_log.append((self.idx, self.circuit_id, bytes(data), tuple(destination)))
-                if tuple(destination) in sim.mep.internet:
+                idx = sim.ov2idx.get(id(self.xs.overlay), 999)
+                sim.exit_log.append((idx, self.xs.circuit_id, bytes(data), tuple(destination)))
+                if not self.v6 and tuple(destination) in sim.mep.internet:
                     self.endpoint.send(destination, data)
 
             def on_packet(self, packet):
-                source_address, data = packet
-                self.datagram_received(data, source_address)
+                if not self.closed:
+                    source, data = packet
+                    self.proto.datagram_received(data, tuple(source))
 
-            async def close(self):
-                await self.shutdown_task_manager()
+            def close(self):
+                self.closed = True
+                if self.endpoint is not None:
+                    self.endpoint.close()
+                    for a in (self.endpoint.wan_address, self.endpoint.lan_address):
+                        sim.mep.internet.pop(a, None)
 
-        for idx, n in enumerate(self.nodes):
-            xs = n.overlay.exit_sockets
-            for cid in list(xs):
-                if not isinstance(xs[cid], HExit):
-                    xs[cid] = HExit(xs[cid], idx)
+        async def fake_open(proto):
+            await asyncio.sleep(0.005)
+            return FakeTransport(proto)
+
+        async def fake_resolve(xs, address):
+            await asyncio.sleep(0.01)
+            return UDPv4Address(sim.dns(address[0]), address[1])
+
+        def is_allowed(xs, data):
+            return True if sim.open_policy else orig_allowed(xs, data)
+
+        xmod.TunnelProtocol.open = fake_open
+        xmod.TunnelExitSocket.resolve = fake_resolve
+        xmod.TunnelExitSocket.is_allowed = is_allowed
+
+    def dns(self, name) -> str:
+        if name in self.dns_table:
+            return self.dns_table[name]
+        h = sum(ord(c) * (i + 7) for i, c in enumerate(str(name)))
+        return f"10.{h % 250 + 1}.{(h // 250) % 250 + 1}.{(h // 62500) % 250 + 1}"
+
+    def live_exit_sockets(self):
+        """(node idx, circuit id) of every exit socket object whose outside transport is open (it can still tunnel
+        return traffic), whether or not the routing table still lists it"""
+        return sorted({(self.ov2idx.get(id(t.xs.overlay), 999), t.xs.circuit_id) for t in self.transports
+                       if not t.closed and not t.v6})
 
     async def stop(self):
         for n in self.nodes:
@@ -275,6 +324,10 @@ class Sim:
                 await n.stop()
             except Exception:
                 pass
+        for t in self.transports:
+            t.closed = True
+        (self._xmod.TunnelProtocol.open, self._xmod.TunnelExitSocket.resolve,
+         self._xmod.TunnelExitSocket.is_allowed) = self._orig_exit_io
         self.mep.internet.clear()
 
     # -- reading the real state ---------------------------------------------------------------------------------
@@ -622,6 +675,63 @@ async def class_round(ctx: Ctx, rng, ck: Checker, sim: Sim, kind: str, send, rec
         ctx.case(("class", kind, ct, cname), True)
 
 
+async def nested_round(ctx: Ctx, rng, ck: Checker, sim: Sim, kind: str, xs, recv_node: int, recv_circ, other_cids):
+    """A host on the Internet answers through the exit with a packet that carries the tunnel community's prefix and a cell
+    message inside (DATA for one of the owner's circuit ids claiming some origin, PING, TEST-REQUEST...).  The owner
+    re-dispatches such packets with the Internet host as the delivering peer; nothing in them may be taken for circuit
+    data unless that peer's FULL address is the circuit's first hop."""
+    from ipv8.messaging.anonymization.endpoint import TunnelEndpoint
+    from ipv8.messaging.anonymization.payload import DataPayload, PingPayload, TestRequestPayload
+    tag = ck.tag
+    ov = sim.nodes[recv_node].overlay
+    pfx = ov.get_prefix()
+    ser = ov.serializer
+    hop = tuple(recv_circ.hop.address)
+    hop_ip_n = struct.unpack("!I", bytes(int(x) for x in hop[0].split(".")))[0]
+    srcs = {"unrelated": ("9.9.9.9", 2000 + rng.randrange(60000)),
+            "hop-ip-other-port": (hop[0], (hop[1] + 1 + rng.randrange(1000)) % 65536 or 1),
+            "hop-exact": hop}
+    claimed = ("66.66.66.66", 6666)
+    for sname, src in srcs.items():
+        inner_cids = {"same": recv_circ.circuit_id, "unknown": (recv_circ.circuit_id + 12345) & 0xffffffff}
+        if other_cids:
+            inner_cids["other"] = other_cids[0]
+        msgs = {}
+        for cname, icid in inner_cids.items():
+            secret = rand_payload(rng, rng.choice([5, 60]))
+            msgs[f"data-{cname}"] = (icid, secret, pfx + bytes([1]) + ser.pack_serializable(DataPayload(icid, ZERO, claimed, secret)))
+        msgs["ping"] = (recv_circ.circuit_id, None, pfx + bytes([6]) + ser.pack_serializable(PingPayload(recv_circ.circuit_id, 77)))
+        msgs["test"] = (recv_circ.circuit_id, None, pfx + bytes([19]) + ser.pack_serializable(
+            TestRequestPayload(recv_circ.circuit_id, 5, 10, b"xx")))
+        for mname, (icid, secret, packet) in msgs.items():
+            replay = {"scenario": tag, "op": "nested", "kind": kind, "source": sname, "inner": mname, "src": list(src),
+                      "first_hop": list(hop), "packet": packet.hex()}
+            first = len(sim.passages)
+            sim.op_first_pid = first
+            n_raw = len(sim.raw_log)
+            xs.tunnel_data(src, packet)
+            await sim.settle()
+            ck.check_passages(first, f"nested {mname} from {sname}", replay)
+            raws = sim.raw_log[n_raw:]
+            # the code's rule (and the model's): accepted only from the first hop's full address
+            target = sim.nodes[recv_node].overlay.circuits.get(icid)
+            legit = secret is not None and target is not None and tuple(src) == tuple(target.hop.address)
+            if raws and not legit:
+                ctx.oracle_fail("on_data:foreign-origin-accepted", f"{tag}: a DATA message nested in a returned tunnel packet, delivered by "
+                                f"{src} ({sname}; first hop is {hop}), was handed to on_raw_data as data of circuit {raws[0][1]} from {raws[0][2]}", replay)
+            ctx.count(f"nested:{sname}:{mname}:{'raw' if raws else 'none'}")
+            if ck.drv is not None and secret is not None and target is not None:
+                sip = struct.unpack("!I", bytes(int(x) for x in src[0].split(".")))[0]
+                th = tuple(target.hop.address)
+                thip = struct.unpack("!I", bytes(int(x) for x in th[0].split(".")))[0]
+                m = ck.ask(f"sink2 {CT[target.ctype]} {sip} {src[1]} {thip} {th[1]} {pfx.hex()} "
+                           f"{int(isinstance(ov.endpoint, TunnelEndpoint))} 1 {secret.hex() or '-'}")
+                seen = "raw" if raws else "dropped"
+                if m != seen:
+                    ctx.disagree(f"{tag}: nested DATA from {sname}: model sink {m} != implementation {seen}", {**replay, "model": m, "impl": seen})
+            ctx.case(("nested", kind, sname, mname), True)
+
+
 async def class_round_exit(ctx: Ctx, rng, ck: Checker, sim: Sim, kind: str, send, exit_node, exit_cid, ctname):
     """data sent by the owner of a circuit toward the exit: for every payload class the exit's outside socket must be
     handed exactly the payload (when the exit's policy lets that class out at all)."""
@@ -644,6 +754,56 @@ async def class_round_exit(ctx: Ctx, rng, ck: Checker, sim: Sim, kind: str, send
                             f"{[(o[0], o[1], len(o[2]), o[3]) for o in outs]} instead of the payload once to {dest}", replay)
         ctx.count(f"class:{kind}:{cname}:{'exit' if outs else 'filtered'}")
         ctx.case(("class", kind, ctname, cname), True)
+
+
+async def burst_round(ctx: Ctx, rng, ck: Checker, sim: Sim, c, path, hops: int, fresh: bool):
+    """k datagrams sent back-to-back into a ready circuit, to a literal IPv4 / IPv6 address or to a host NAME (resolved
+    by the exit): every one of them must leave the exit's outside socket, once, unmodified, to the (resolved) address.
+    `fresh` = the exit socket has not created its transports yet (datagrams wait in its queue)."""
+    from ipv8.messaging.interfaces.udp.endpoint import DomainAddress, UDPv4Address, UDPv6Address
+    tag = ck.tag
+    ov = sim.nodes[0].overlay
+    exit_node, exit_cid = path[-1]
+    kinds = ["name", "ip4", "name", "ip6", "mixed"] if not fresh else [rng.choice(["name", "ip4", "mixed"])]
+    for kind in kinds:
+        k = rng.choice([1, 2, 3, 5])
+        host = f"host{rng.randrange(1000)}.example"
+        port = 1000 + rng.randrange(60000)
+        dests = []
+        for i in range(k):
+            dk = kind if kind != "mixed" else rng.choice(["name", "ip4"])
+            if dk == "name":
+                dests.append((DomainAddress(host, port), (sim.dns(host), port)))
+            elif dk == "ip4":
+                dests.append((UDPv4Address("8.8.4.4", port), ("8.8.4.4", port)))
+            else:
+                dests.append((UDPv6Address("2001:db8::1", port), ("2001:db8::1", port)))
+        payloads = [b"d" + bytes([i]) + bytes(rng.getrandbits(8) for _ in range(rng.choice([0, 20, 400]))) + b"e" for i in range(k)]
+        replay = {"scenario": tag, "op": "burst", "kind": kind, "k": k, "fresh": fresh, "hops": hops,
+                  "payloads": [p.hex() for p in payloads], "destinations": [str(d[0]) for d in dests]}
+        first = len(sim.passages)
+        sim.op_first_pid = first
+        n_exit = len(sim.exit_log)
+        for pl, (d, _) in zip(payloads, dests):
+            ov.send_data(c.hop.address, c.circuit_id, d, ZERO, pl)      # no settling in between
+        await sim.settle()
+        ck.check_passages(first, f"burst {kind} x{k}", replay)
+        outs = sim.exit_log[n_exit:]
+        want = sorted((exit_node, exit_cid, pl, res) for pl, (_, res) in zip(payloads, dests))
+        if sorted(outs) != want:
+            ctx.oracle_fail("exit_socket:burst-output", f"{tag}: {k} datagram(s) sent back-to-back to {kind} destination(s) over {hops} hop(s) "
+                            f"(exit socket {'not yet open' if fresh else 'open'}): {len(outs)} left the exit "
+                            f"({[(len(o[2]), o[3]) for o in outs]}), expected each of the {k} once", replay)
+        ctx.count(f"burst:{kind}:{'fresh' if fresh else 'open'}:k{k}")
+        if ck.drv is not None:
+            evs = ",".join(("n" if isinstance(d, DomainAddress) else "i") for d, _ in dests)
+            m = ck.ask(f"xsburst {int(not fresh)} [{evs}]")
+            lost = sum(1 for pl in payloads if [o[2] for o in outs].count(pl) != 1)
+            real = f"out={len(outs)} lost={lost}"
+            if m != real:
+                ctx.disagree(f"{tag}: burst of {k} ({kind}) into the exit socket: model `{m}` != implementation `{real}`",
+                             {**replay, "model": m, "impl": real})
+        ctx.case(("burst", hops, kind, fresh, k), True)
 
 
 # ------------------------------------------------------------------------------------------------------------------
@@ -750,6 +910,9 @@ async def run_plain(ctx: Ctx, rng, hops: int, use_model: bool, seed_tag: str, al
                     ctx.disagree(f"{tag}: the tables built for circuit {c.circuit_id} do not satisfy the path hypotheses of the theorems "
                                  f"(FwdChain: {rf}, BwdChain: {rb})", {"scenario": tag, "hops": hops, "tables": sim.tables()[0]})
         sizes = [rng.choice(SIZES) for _ in range(ctx.scale(5, 12))] + [0, 1500] + ([4096] if ctx.thorough() else [])
+        # ---- bursts into an exit socket that has not opened its transports yet ---------------------------------
+        if len(circuits) > 1:
+            await burst_round(ctx, rng, ck, sim, circuits[1], paths[1], hops, fresh=True)
         # ---- genuine traffic -------------------------------------------------------------------------------
         for ci, (c, path) in enumerate(zip(circuits, paths)):
             exit_node, exit_cid = path[-1]
@@ -826,12 +989,14 @@ async def run_plain(ctx: Ctx, rng, hops: int, use_model: bool, seed_tag: str, al
                 fut.cancel()
             ctx.case((tag.split('/')[0], hops, "test", rs, ps_), True)
             ctx.count("op:test_request")
+        await burst_round(ctx, rng, ck, sim, circuits[0], paths[0], hops, fresh=False)
         # ---- every payload class, both directions --------------------------------------------------------------
         for c, path in zip(circuits, paths):
             exit_node, exit_cid = path[-1]
             src = ("9.9.9.9", 2000 + rng.randrange(60000))
             xs = sim.nodes[exit_node].overlay.exit_sockets.get(exit_cid)
             await class_round(ctx, rng, ck, sim, "plain-bwd", lambda pl, xs=xs, src=src: xs.tunnel_data(src, pl), 0, c, src)
+            await nested_round(ctx, rng, ck, sim, "plain", xs, 0, c, [x.circuit_id for x in circuits if x is not c])
             await class_round_exit(ctx, rng, ck, sim, "plain-fwd",
                                    lambda pl, dest, c=c: ov.send_data(c.hop.address, c.circuit_id, dest, ZERO, pl),
                                    exit_node, exit_cid, "data")
@@ -1302,6 +1467,158 @@ async def run_preready(ctx: Ctx, rng, use_model: bool, seed_tag: str):
 
 
 # ------------------------------------------------------------------------------------------------------------------
+async def run_teardown(ctx: Ctx, rng, hops: int, use_model: bool, seed_tag: str):
+    """Circuits being retired with the production setting remove_tunnel_delay = 5 s: during the delay the exit socket is
+    still open and the Internet can still answer; whatever still travels (return traffic, late forward data, pings) must
+    be layered exactly as before, and once the entries are gone nothing travels at all.  Triggers: the originator
+    destroys the circuit, the exit retires the socket itself (idle / too old / over quota: what do_remove does), a relay
+    gives up, the exit sends a destroy."""
+    from ipv8.messaging.anonymization.tunnel import PEER_FLAG_EXIT_BT, PEER_FLAG_RELAY, PEER_FLAG_SPEED_TEST
+    from ipv8.messaging.interfaces.endpoint import EndpointListener
+    trigger = rng.choice(["orig-destroy", "exit-retire", "exit-destroy"] + (["relay-destroy"] if hops > 1 else []))
+    sim = Sim(rng, hidden=False, open_policy=False)
+    tag = f"teardown/{hops}hop/{trigger}/{seed_tag}"
+    ck = Checker(ctx, sim, use_model, tag)
+    try:
+        for _ in range(hops + 1):
+            sim.add_node()
+        for n in sim.nodes:
+            n.overlay.settings.remove_tunnel_delay = 5
+        sim.nodes[hops].overlay.settings.peer_flags = {PEER_FLAG_RELAY, PEER_FLAG_SPEED_TEST, PEER_FLAG_EXIT_BT}
+        await sim.introduce()
+        ov = sim.nodes[0].overlay
+        c = ov.create_circuit(hops)
+        await sim.settle(0.05)
+        if c is None or c.state != "READY":
+            ctx.oracle_fail("create_circuit:not-ready", f"{tag}: no circuit", {"scenario": tag, "hops": hops})
+            return
+        path = path_of(sim, 0, c)
+        exit_node, exit_cid = path[-1]
+        xo = sim.nodes[exit_node].overlay
+
+        class Host(EndpointListener):
+            def __init__(self):
+                ep = sim.mep.AutoMockEndpoint()
+                ep.open()
+                EndpointListener.__init__(self, ep, main_thread=False)
+                ep.add_listener(self)
+                self.got = []
+
+            def on_packet(self, packet):
+                self.got.append((tuple(packet[0]), bytes(packet[1])))
+        host = Host()
+        haddr = tuple(host.endpoint.wan_address)
+
+        def dht(n):
+            return b"d" + bytes(rng.getrandbits(8) for _ in range(n)) + b"e"
+        # open the exit's outside socket and learn its public address
+        hello = dht(20)
+        ov.send_data(c.hop.address, c.circuit_id, haddr, ZERO, hello)
+        await sim.settle()
+        if not host.got or host.got[-1][1] != hello:
+            ctx.oracle_fail("exit_data:output", f"{tag}: datagram for a host on the mock internet did not arrive", {"scenario": tag, "hops": hops})
+            return
+        public = host.got[-1][0]
+        sim.key_ids()
+        ck.load_tables()
+        if ck.drv is not None:
+            for (i, cid) in sim.live_exit_sockets():
+                ck.ask(f"xopen {i} {cid}")
+
+        async def traffic(phase, expect_delivery):
+            """return traffic from the host, late forward data, a ping"""
+            for what in ("return", "forward", "ping", "return"):
+                payload = dht(rng.choice([0, 30, 300]))
+                replay = {"scenario": tag, "op": "teardown-traffic", "phase": phase, "what": what, "trigger": trigger, "hops": hops,
+                          "payload": payload.hex()}
+                first = len(sim.passages)
+                sim.op_first_pid = first
+                n_raw, n_got = len(sim.raw_log), len(host.got)
+                if what == "return":
+                    if public in sim.mep.internet:       # a closed socket receives nothing
+                        host.endpoint.send(public, payload)
+                elif what == "forward":
+                    # an application only sends into circuits the community still lists (a stale circuit id would be
+                    # sent in clear by outgoing_crypto: see `uncovered_is_clear`; noted in design.d/C04.md)
+                    if c.circuit_id in ov.circuits:
+                        ov.send_data(c.hop.address, c.circuit_id, haddr, ZERO, payload)
+                else:
+                    ov.do_ping()
+                await sim.settle()
+                cells = [p for p in sim.passages[first:] if p.kind == "cell"]
+                ck.check_passages(first, f"{phase}: {what}", replay)     # includes the plaintext-visible / layering oracle
+                for p in cells:
+                    for (src, dst, cid, pt, re, body) in p.wires:
+                        if not pt and payload and len(payload) >= 8 and payload in body:
+                            ctx.oracle_fail("link:plaintext-visible", f"{tag}: {phase}: {what} payload visible in clear on link {src}>{dst}", replay)
+                raws, gots = sim.raw_log[n_raw:], host.got[n_got:]
+                if any(r[3] != payload for r in raws) or any(g[1] != payload for g in gots):
+                    ctx.oracle_fail("teardown:altered", f"{tag}: {phase}: {what}: altered data delivered", replay)
+                if expect_delivery and what == "return" and raws != [(0, c.circuit_id, haddr, payload)]:
+                    ctx.oracle_fail("on_data:originator-input", f"{tag}: {phase}: return traffic did not reach the originator once, intact, "
+                                    f"from {haddr} (got {[(r[0], r[1], r[2], len(r[3])) for r in raws]})", replay)
+                if phase == "after" and cells and any(p.wires for p in cells if p.node != 0):
+                    ctx.oracle_fail("teardown:traffic-after-removal", f"{tag}: a retired node still put cells on the wire", replay)
+                ctx.count(f"teardown:{trigger}:{phase}:{what}:{'delivered' if (raws or gots) else 'none'}")
+                ctx.case(("teardown", hops, trigger, phase, what), True)
+
+        def compare_cover(when):
+            if ck.drv is None:
+                return
+            live = sim.live_exit_sockets()
+            for i in range(len(sim.nodes)):
+                m = ck.ask(f"covered {i}")
+                mine = [cid for (n, cid) in live if n == i]
+                listed = all(cid in sim.nodes[i].overlay.exit_sockets for cid in mine)
+                real = f"{'covered' if listed else 'UNCOVERED'} open=[{','.join(map(str, sorted(mine)))}]"
+                if m != real:
+                    ctx.disagree(f"{tag}: {when}: open exit sockets of node {i}: model `{m}` != implementation `{real}`",
+                                 {"scenario": tag, "node": i, "model": m, "impl": real, "trigger": trigger, "hops": hops})
+            ck.compare_tables(when)
+
+        await traffic("before", True)
+        compare_cover("before the removal")
+        # ---- the removal starts ------------------------------------------------------------------------------
+        if trigger == "orig-destroy":
+            ov.remove_circuit(c.circuit_id, "test", destroy=True)
+        elif trigger == "exit-retire":
+            xo.remove_exit_socket(exit_cid, "no activity")
+        elif trigger == "exit-destroy":
+            xo.remove_exit_socket(exit_cid, "test", destroy=True)
+        else:
+            rn, rcid = path[0]
+            sim.nodes[rn].overlay.remove_relay(rcid, "test", destroy=True)
+        await sim.settle()
+        if ck.drv is not None:
+            ck.ask(f"rmstart {exit_node} {exit_cid}")
+        compare_cover("during remove_tunnel_delay")
+        live = (exit_node, exit_cid) in sim.live_exit_sockets()
+        still_listed = exit_cid in xo.exit_sockets
+        if live and not still_listed:
+            ctx.oracle_fail("remove_exit_socket:open-socket-unlisted", f"{tag}: during remove_tunnel_delay the exit socket of circuit {exit_cid} "
+                            "is still open but no longer in the routing table", {"scenario": tag, "trigger": trigger, "hops": hops})
+        await traffic("during", False)
+        compare_cover("during remove_tunnel_delay, after traffic")
+        # ---- the delay has passed ------------------------------------------------------------------------------
+        await asyncio.sleep(12)
+        await sim.settle()
+        if ck.drv is not None:
+            # entries whose removal has completed
+            for i, n in enumerate(sim.nodes):
+                pass
+            ck.load_tables()
+            for (i, cid) in sim.live_exit_sockets():
+                ck.ask(f"xopen {i} {cid}")
+        compare_cover("after the removal")
+        await traffic("after", False)
+        ctx.count(f"scenario:teardown:{trigger}")
+    finally:
+        if ck.drv is not None:
+            ck.drv.close()
+        await sim.stop()
+
+
+# ------------------------------------------------------------------------------------------------------------------
 def run_async(coro_fn):
     import logging
     import vclock
@@ -1346,6 +1663,10 @@ def run(ctx: Ctx):
         sub = _random.Random(ctx.rng.getrandbits(64))
         _, errs = run_async(lambda: run_preready(ctx, sub, use_model, f"s{ctx.seed}r{rnd}"))
         note_errs(ctx, errs)
+        for hops in (1, 2, 3):
+            sub = _random.Random(ctx.rng.getrandbits(64))
+            _, errs = run_async(lambda: run_teardown(ctx, sub, hops, use_model, f"s{ctx.seed}r{rnd}"))
+            note_errs(ctx, errs)
 
 
 def search(ctx: Ctx, reason: str):
@@ -1357,6 +1678,9 @@ def search(ctx: Ctx, reason: str):
         run_async(lambda: run_e2e(ctx, sub, False, f"search{rnd}"))
         sub = _random.Random(ctx.rng.getrandbits(64))
         run_async(lambda: run_preready(ctx, sub, False, f"search{rnd}"))
+        for hops in (1, 2, 3):
+            sub = _random.Random(ctx.rng.getrandbits(64))
+            run_async(lambda: run_teardown(ctx, sub, hops, False, f"search{rnd}"))
 
 
 def replay(ctx: Ctx, rec: dict):
